@@ -998,6 +998,8 @@ def partD_model(lib, part, item, thorough):
     which, fl1, rng = item
     if which == "auto":
         return partD_auto(lib, part)
+    if which == "multi":
+        return partD_multi(lib, part, thorough)
     lo, hi = rng
     if which == "tendon":
         target, gear_s, desc = 'tendon="tf"', "0.8", dict(kind="tendon", ten="tf", tendon_range=rng, joint_range=rng)
@@ -1022,6 +1024,83 @@ def partD_model(lib, part, item, thorough):
     ctrls = list(itertools.product(M.CTRLS, repeat=3))
     run_model(lib, part, "%s-level clamp|D fl=%d range=%s" % (which, fl1, rng), xml, acts, desc, gear_s, qs, M.vel_lattice(2, thorough), 1, rp0,
               ctrls=ctrls)
+
+def partD_multi(lib, part, thorough):
+    """Joint- and tendon-level clamps in a model that also has a multi-output (orientation, 3 outputs) and a multi-input (pid)
+    actuator, declared before / between / after the clamped single-output actuators: the actuator's output address differs
+    from its index there.  Oracle: the documented clamp written out (sum of the forces of the actuators on the target is scaled
+    into actuatorfrcrange) and invariance under the declaration order."""
+    import itertools
+    ORI = '<orientation name="o" joint="jb" kp="2.3" kv="0.2" input="expmap"/>'
+    PID = '<pid name="p" joint="j2" kp="1.5" kv="0.3" input="pos vel"/>'
+    T1 = '<motor name="m1" tendon="t" gear="1"/>'
+    T2 = '<general name="m2" tendon="t" gear="-0.5" gainprm="2"/>'
+    J1 = '<motor name="n1" joint="j3" gear="1.5"/>'
+    J2 = '<motor name="n2" joint="j3" gear="-1"/>'
+    body = ('<body name="a"><joint name="jb" type="ball"/><geom size=".1"/></body>'
+            '<body name="b" pos="1 0 0"><joint name="j" type="hinge"/><geom size=".1"/></body>'
+            '<body name="c" pos="2 0 0"><joint name="j2" type="slide"/><geom size=".1"/></body>'
+            '<body name="e" pos="3 0 0"><joint name="j3" type="hinge" actuatorfrcrange="-0.7 0.4"/><geom size=".1"/></body>')
+    ten = '<tendon><fixed name="t" actuatorfrclimited="true" actuatorfrcrange="-1 0.6"><joint joint="j" coef="0.8"/></fixed></tendon>'
+    orders = [(ORI, PID, T1, T2, J1, J2), (T1, T2, J1, J2, ORI, PID), (T1, ORI, T2, J1, PID, J2), (PID, J1, ORI, J2, T1, T2)]
+    ctrl_of = {"o": [(0.3, -0.2, 0.5)], "p": [(0.7, -0.2)], "m1": [(-3.0,), (0.2,), (2.5,)], "m2": [(-1.0,), (0.4,)], "n1": [(-2.0,), (0.1,), (1.0,)], "n2": [(0.5,), (-1.5,)]}
+    names = ["o", "p", "m1", "m2", "n1", "n2"]
+    results = {}
+    for oi, order in enumerate(orders):
+        xml = "<mujoco><worldbody>%s</worldbody>%s<actuator>%s</actuator></mujoco>" % (body, ten, "".join(order))
+        m = lib.load_xml(xml)
+        d = lib.make_data(m)
+        ids = {nm: lib.mj_name2id(m, 19, nm.encode()) for nm in names}     # mjOBJ_ACTUATOR
+        cadr, cnum = np.array(m.actuator_ctrladr), np.array(m.actuator_ctrlnum)
+        oadr = np.array(m.actuator_outadr)
+        dof = {jn: int(m.jnt_dofadr[lib.mj_name2id(m, 3, jn.encode())]) for jn in ("j", "j3")}
+        for ci, combo in enumerate(itertools.product(*[ctrl_of[nm] for nm in names])):
+            lib.mj_resetData(m, d)
+            d.qpos[0:4] = (0.9, 0.1, -0.3, 0.2)
+            d.qvel[:] = 0.0
+            for nm, val in zip(names, combo):
+                a = ids[nm]
+                d.ctrl[cadr[a]:cadr[a] + cnum[a]] = val
+            lib.mj_forward(m, d)
+            part.count(1, key=("Dmulti", oi, ci))
+            f = np.array(d.actuator_force)
+            rp = {"part": "D", "xml": xml, "ctrl": [list(c) for c in combo], "order": oi}
+            c = dict(zip(names, combo))
+            # documented single-actuator forces (gain * ctrl), then the documented clamp of the total per target
+            raw = {"m1": c["m1"][0], "m2": 2.0 * c["m2"][0], "n1": c["n1"][0], "n2": c["n2"][0]}
+            tot_t = raw["m1"] + raw["m2"]
+            sc_t = (-1.0 / tot_t) if tot_t < -1.0 else (0.6 / tot_t) if tot_t > 0.6 else 1.0
+            exp = {"m1": raw["m1"] * sc_t, "m2": raw["m2"] * sc_t}
+            for nm in ("m1", "m2"):
+                got = float(f[oadr[ids[nm]]])
+                if abs(got - exp[nm]) > 1e-12 * (1 + abs(exp[nm])):
+                    _viol(part, "tendon-level actuatorfrcrange: actuator force differs from the documented clamp of the tendon total in a model with "
+                                "multi-output actuators", "order %d: %s force %r, documented %r (tendon total %r, range -1 0.6)" % (oi, nm, got, exp[nm], tot_t), rp)
+            # joint-level clamp acts on qfrc_actuator of the joint's dof
+            qj = 1.5 * raw["n1"] - 1.0 * raw["n2"]
+            qexp = min(0.4, max(-0.7, qj))
+            got = float(d.qfrc_actuator[dof["j3"]])
+            if abs(got - qexp) > 1e-12 * (1 + abs(qexp)):
+                _viol(part, "joint-level actuatorfrcrange: qfrc_actuator differs from the documented clamp in a model with multi-output actuators",
+                      "order %d: qfrc_actuator[j3]=%r, documented %r" % (oi, got, qexp), rp)
+            got = float(d.qfrc_actuator[dof["j"]])
+            qexp = 0.8 * (1.0 * exp["m1"] - 0.5 * exp["m2"])
+            if abs(got - qexp) > 1e-12 * (1 + abs(qexp)):
+                _viol(part, "tendon-level actuatorfrcrange: qfrc_actuator differs from moment' * clamped forces in a model with multi-output actuators",
+                      "order %d: qfrc_actuator[j]=%r, documented %r" % (oi, got, qexp), rp)
+            # declaration-order invariance of everything observable per actuator name / dof
+            obs = tuple([float(f[oadr[ids[nm]] + k]) for nm in names for k in range(3 if nm == "o" else 1)] +
+                        [float(x) for x in np.array(d.qfrc_actuator)])
+            if ci in results:
+                ref = results[ci]
+                if max(abs(a - b) for a, b in zip(obs, ref)) > 1e-12:
+                    _viol(part, "actuation result depends on the declaration order of multi-output and single-output actuators",
+                          "order %d differs from order 0: %r vs %r" % (oi, obs, ref), rp)
+            else:
+                results[ci] = obs
+        d.free()
+        m.free()
+
 
 # ====================================================================== Part C2: multi-input actuators (pid, orientation, dcmotor)
 
@@ -1491,6 +1570,7 @@ def work_items(thorough):
     for which in ("ball", ("s1", "s0"), ("s0", "s1"), ("s1", "sw"), ("sw", "s1")):
         items.append(("C2ori", (which, "ball"), thorough))
     items.append(("D", ("auto", 0, None), thorough))
+    items.append(("D", ("multi", 0, None), thorough))
     for which in ("tendon", "joint"):
         for fl1 in (0, 1):
             for rng in ((-1.0, 1.0), (-7.0, 5.0)):
